@@ -256,6 +256,9 @@ example : compareValues (.int 3) (.real 0x4008000000000000) = .eq ∧ compareVal
 example : F64.isNaN 0x7ff8000000000000 = true ∧ compareValues (.int (2 ^ 63 - 1)) (.real 0x7ff8000000000000) = .lt ∧
     compareValues (.int (-(2 ^ 63))) (.real 0xfff0000000000000) = .gt := by decide
 example : (Value.int 1).valueType = (Value.int 2).valueType ∧ (Value.real 0).rank = (Value.real 1).rank := by decide
+example : isNumber (.real 0x7ff8000000000000) = true ∧ isNumber (.int (-5)) = true ∧ isNumber (.real 0xfff0000000000000) = true := by decide
+-- a pair that is not an INT/REAL mix although the types differ (the derived order compares the variant rank)
+example : compareValues (.text [97]) (.int 1) = cmp (.text [97]) (.int 1) := rfl
 
 /-! ## NEW (review gap 5): array_unique
 
@@ -315,6 +318,7 @@ theorem array_unique_members_are_inputs (xs : List Value) (v : Value) (h : v ∈
 
 -- non-vacuity: sorted output, first of equal values kept (-0.0 before 0.0; NaN payloads), INT/REAL not merged (D45)
 example : uniqueValues [.int 3, .int 1, .int 3, .int 2] = [.int 1, .int 2, .int 3] := rfl
+example : Value.int 3 ∈ [Value.int 3, .int 1, .int 3, .int 2] := List.mem_cons_self
 example : uniqueValues [negZero, posZero, one, posZero] = [negZero, one] ∧ uniqueValues [posZero, negZero] = [posZero] := ⟨rfl, rfl⟩
 example : uniqueValues [.real 0x7ff8000000000001, nan, one] = [one, .real 0x7ff8000000000001] := rfl
 example : uniqueValues [.text [98], .text [97], .text [98]] = [.text [97], .text [98]] := rfl
